@@ -77,7 +77,9 @@ def run(ctx):
                     nsname = "numpy" if kind in ("emcee_smc", "emcee") else "torch"
                 xp = NS[nsname]
                 dims = ctx.rng.choice([1, 2, 3])
-                dt = nsutil.native_dtype(nsname, "float64")
+                # every fourth case in single precision (numerical comparison with float32 tolerances; no finite differences, no IR tie)
+                f32 = (rot % 4 == 3) and pre != "flow" and kind != "blackjax_smc"
+                dt = nsutil.native_dtype(nsname, "float32" if f32 else "float64")
                 prior = "box" if opt.get("bounds") else ctx.rng.choice(["normal", "box"])
                 nan_above = 3.0 if ctx.rng.random() < 0.3 else None
                 tgt = sd.Target(dims, s=ctx.rng.choice([0.5, 1.0, 2.0]), c=0.3, prior=prior, nan_above=nan_above)
@@ -113,10 +115,10 @@ def run(ctx):
                 # "x the pre-image of z": the inverse the kernels use really inverts the forward map (z0 = forward(x0) on interior
                 # points) - checked against x0 itself, not against anything the transform says about itself
                 try:
-                    z0in = z0 if T.xp.__name__.endswith("numpy") or kind in ("emcee_smc", "emcee") else T.xp.asarray(z0, dtype=T.dtype)
+                    z0in = (np.asarray(z0, dtype=np.float32) if f32 else z0) if T.xp.__name__.endswith("numpy") or kind in ("emcee_smc", "emcee") else T.xp.asarray(z0, dtype=T.dtype)
                     xr = np.asarray(nsutil.to_list(T.inverse(z0in)[0]), float).reshape(-1, dims)
                     interior = np.all((x0 > blo + 0.05 * (bhi - blo)) & (x0 < bhi - 0.05 * (bhi - blo)), axis=1)
-                    tolx = 1e-3 if pre == "flow" else 1e-6
+                    tolx = 1e-3 if pre == "flow" else (2e-3 if f32 else 1e-6)
                     if np.any(np.abs(xr - x0)[interior] > tolx * (1 + np.abs(x0)[interior])):
                         i_bad = int(np.argmax(np.max(np.abs(xr - x0), axis=1) * interior))
                         ctx.violation(f"not-the-pre-image:{pre}:{json.dumps(pkw, sort_keys=True)}",
@@ -130,13 +132,15 @@ def run(ctx):
                 if not opt.get("bounds") or opt.get("periodic"):
                     z[0] = z[0] * 0 + 50.0           # far outside a box prior when the map is unbounded
                 beta = ctx.rng.choice([1.0, 0.5, 0.25, 1e-3, 0.999]) if qbox is None else ctx.rng.choice([1.0, 1.0, 0.5])
-                zin = z if T.xp.__name__.endswith("numpy") or kind in ("emcee_smc", "emcee") else T.xp.asarray(z, dtype=T.dtype)
+                if f32:
+                    z = np.asarray(z, dtype=np.float32).astype(float)      # the points themselves are float32 numbers
+                zin = (np.asarray(z, dtype=np.float32) if f32 else z) if T.xp.__name__.endswith("numpy") or kind in ("emcee_smc", "emcee") else T.xp.asarray(z, dtype=T.dtype)
                 # an undefined (NaN) likelihood at a point INSIDE the prior support, in every namespace: row 1 (its pre-image is known
                 # before the kernel's log-density is evaluated)
                 try:
                     x_pre = np.asarray(nsutil.to_list(T.inverse(zin)[0]), float).reshape(-1, dims)
                     if (ctx.rng.random() < 0.6 or nsname == "jax") and np.all(np.isfinite(x_pre[1])) and np.all((x_pre[1] > blo) & (x_pre[1] < bhi)):
-                        tgt.nan_above = float(x_pre[1, 0]) - 1e-9
+                        tgt.nan_above = float(x_pre[1, 0]) - (1e-4 * (1 + abs(float(x_pre[1, 0]))) if f32 else 1e-9)
                 except Exception:
                     pass
                 tgt.calls.clear()
@@ -157,8 +161,8 @@ def run(ctx):
                 Lx, Px, Qx = tgt.L(xi), tgt.Pi(xi), flow._lp(xi)
                 key = (kind, pre, json.dumps(pkw, sort_keys=True), json.dumps(opt, sort_keys=True), nsname, dims, beta)
                 nontriv = bool(np.any(np.isfinite(got)))
-                ctx.count(key, nontriv, kind=f"{kind}/{pre}/{'+'.join(sorted((pkw or {}).keys())) or '-'}/{nsname}")
-                rep_base = {"kind": kind, "preconditioning": pre, "kwargs": pkw, "options": opt, "ns": nsname, "dims": dims, "beta": beta}
+                ctx.count(key, nontriv, kind=f"{kind}/{pre}/{'+'.join(sorted((pkw or {}).keys())) or '-'}/{nsname}" + ("/float32" if f32 else ""))
+                rep_base = {"kind": kind, "preconditioning": pre, "kwargs": pkw, "options": opt, "ns": nsname, "dims": dims, "beta": beta, "dtype": "float32" if f32 else "float64"}
                 with np.errstate(all="ignore"):
                     if kind in ("minipcn", "emcee"):
                         want = Lx + Px + lji
@@ -170,7 +174,7 @@ def run(ctx):
                     case = dict(rep_base, z=z[i].tolist(), x=xi[i].tolist(), got=g, want=w, logL=float(Lx[i]), logpi=float(Px[i]), logq=float(Qx[i]), logJ=float(lji[i]))
                     if len(ctx.samples) < 4 and i == 1:
                         ctx.sample(case)
-                    same = (math.isnan(w) and math.isnan(g)) or w == g or abs(w - g) <= 1e-6 * (1 + abs(w))
+                    same = (math.isnan(w) and math.isnan(g)) or w == g or abs(w - g) <= (1e-3 if f32 else 1e-6) * (1 + abs(w) + (abs(float(lji[i])) if f32 and math.isfinite(float(lji[i])) else 0))
                     if not same:
                         ctx.violation(f"target-value:{kind}:{pre}", f"log_prob(z) = {g} but (1-b)log q + b(log L+log pi) + log|J| = {w}", case)
                     if Px[i] == -np.inf and not (g == -np.inf or (kind in ("minipcn", "emcee") and math.isnan(g) and math.isnan(Lx[i]))):
@@ -178,7 +182,7 @@ def run(ctx):
                     if kind not in ("minipcn", "emcee") and math.isnan(g):
                         ctx.violation(f"nan-propagated:{kind}:{pre}", "NaN handed to the SMC kernel", case)
                 # finite-difference cross-check of the reported log-Jacobian (numpy transforms, interior points)
-                if pre != "flow" and T.xp.__name__.endswith("numpy"):
+                if pre != "flow" and T.xp.__name__.endswith("numpy") and not f32:
                     for i in range(1, min(n, 4)):
                         if np.all((xi[i] > blo + 0.1) & (xi[i] < bhi - 0.1)) and np.isfinite(lji[i]):
                             fd = fd_logdet(T.inverse, z[i])
@@ -186,7 +190,7 @@ def run(ctx):
                                 ctx.violation(f"log-jacobian:{pre}:{json.dumps(pkw, sort_keys=True)}", f"reported log|det dx/dz| {lji[i]} vs finite differences {fd}",
                                               dict(rep_base, z=z[i].tolist()))
                 # ---- tie: translated call site vs implementation (the IR the theorems are about)
-                if irall:
+                if irall and not f32:
                     name = {"minipcn_smc": "smc_log_prob_value", "emcee_smc": "smc_log_prob_value", "blackjax_smc": "blackjax_log_prob_value",
                             "minipcn": "mcmc_log_prob_value", "emcee": "mcmc_log_prob_value"}[kind]
 
